@@ -10,9 +10,9 @@ func init() {
 	propFuncs["C09"] = propC09
 	propInfos["C09"] = &PropInfo{
 		Level:   "other",
-		Explain: "Structural necessary conditions decided statically (DESIGN.md §5 C09): engine A — Sample.Copy and the vec helpers return memory sharing nothing with their inputs, no query writes its argument, Sort writes exactly the documented paths; C-swap — sampleSorter.Swap exchanges (i,j) in both xs and weights, Sort hands both slices of the same receiver to the sorter and sets Sorted; engine B — the incremental recurrences of Mean, weighted Mean, GeoMean (log/exp), Variance (Welford) with the n-1 denominator, StdDev, weighted Sum, Weight, vec.Sum, the element formulas of Linspace, Logspace, Map; decision lists for empty input (NaN), len<=1 (variance 0), non-positive value in GeoMean (NaN); Bounds' fast path for sorted unweighted samples.",
+		Explain: "Structural necessary conditions decided statically (DESIGN.md §5 C09): engine A — Sample.Copy and the vec helpers return memory sharing nothing with their inputs, no query writes its argument, Sort writes exactly the documented paths; C-swap — sampleSorter.Swap exchanges (i,j) in both xs and weights, Sort hands both slices of the same receiver to the sorter and sets Sorted; engine B — the incremental recurrences of Mean, weighted Mean, GeoMean (log/exp), Variance (Welford) with the n-1 denominator, StdDev, weighted Sum, Weight, vec.Sum, the element formulas of Linspace, Logspace, Map; decision lists for empty input (NaN), len<=1 (variance 0), non-positive value in GeoMean (NaN); Bounds' fast path for sorted unweighted samples and its scans over sorted weighted data (value at the first/last non-zero weight: start, step, advanced only past zero weights, left only at a hit or exhausted); Sort leaves the data unsorted only when s.Sorted or the values are found ascending (sort.Float64sAreSorted or a module helper decided to be that all-adjacent-pairs scan).",
 		Assume:  []string{"A4 reals", "A2"},
-		Undec:   []string{"closeness to the exact value under rounding", "order independence beyond rounding", "the weighted Bounds scans", "that sort sorts"},
+		Undec:   []string{"closeness to the exact value under rounding", "order independence beyond rounding", "that sort.Sort/sort.Float64s sort (trusted library)"},
 	}
 }
 
